@@ -1,5 +1,7 @@
 import Driver.UrlCmd
 import AdaVerif.Spec.Pattern
+import AdaVerif.Model.PatternCanon
+import Driver.AggCmd
 /- spec.canon <component> <hexvalue> <hexprotocol|!> [hint=..]* : the Standard's canonicalisation of one literal value -/
 namespace Driver
 open AdaVerif AdaVerif.Spec AdaVerif.Spec.Pattern
@@ -32,6 +34,39 @@ def cmdSpecCanon (comp value proto : String) (hintArgs : List String) : String :
   | "search" => "ok " ++ hexs (canonSearch v)
   | "hash" => "ok " ++ hexs (canonHash v)
   | "escape" => "ok " ++ hexs (escapePatternString v)
+  | _ => "bad-op"
+
+/- pat.canon <component> <hexvalue> <hexprotocol|-> [L=<n>] [hint=..]* : the model of ada's canonicalize_* callback (Model/PatternCanon.lean) -/
+open AdaVerif.Model.PatternCanon in
+def cmdPatCanon (comp value proto : String) (args : List String) : String :=
+  let idna := mkIdna (parseHints args)
+  let L := (limitArg args).getD 4294967295
+  let v := unhexs value
+  match comp with
+  | "protocol" =>
+    -- the slow route parses value ++ "://dummy.test": probe the host of that parse for unanswered IDNA questions
+    let input := if v.getLast? == some 0x3A then v.dropLast else v
+    let probe := match AdaVerif.Model.ParseAgg.parseNoBaseA idna (input ++ AdaVerif.Model.PatternCanon.dummySuffix) with
+      | some a => findMarker idna (AdaVerif.Model.Agg.getHostname a)
+      | none => none
+    (match probe with
+     | some d => s!"need-idna {hexs d}"
+     | none => okOpt (canonicalizeProtocol idna L v))
+  | "username" => "ok " ++ hexs (canonicalizeUsername v)
+  | "password" => "ok " ++ hexs (canonicalizePassword v)
+  | "hostname" =>
+    (match canonicalizeHostname idna 4294967295 v with
+     | some h => (match findMarker idna h with
+        | some d => s!"need-idna {hexs d}"
+        | none => okOpt (canonicalizeHostname idna L v))
+     | none => okOpt (canonicalizeHostname idna L v))
+  | "ipv6hostname" => okOpt (canonicalizeIpv6Hostname v)
+  | "port" => okOpt (canonicalizePortFull v)
+  | "portproto" => okOpt (canonicalizePortWithProtocol v (unhexs proto))
+  | "pathname" => okOpt (canonicalizePathname L v)
+  | "opaquepathname" => "ok " ++ hexs (canonicalizeOpaquePathname v)
+  | "search" => "ok " ++ hexs (canonicalizeSearch v)
+  | "hash" => "ok " ++ hexs (canonicalizeHash v)
   | _ => "bad-op"
 
 end Driver
